@@ -50,6 +50,18 @@ def programs():
     add("two-defaults-of-one-def", dflt, [("second-default", "referenced", {"BUILD.dawn": dflt.replace("mk([2])", "mk([3])")})])
     add("nested", T + "    def inner(a):\n        return a + 10\n    f = lambda z: inner(z) * 2\n    print(f(1))\n",
         [("inner-constant", "referenced", {"BUILD.dawn": T + "    def inner(a):\n        return a + 11\n    f = lambda z: inner(z) * 2\n    print(f(1))\n"})])
+    lam = T + "    f = lambda: %s\n    g = lambda: %s\n    print(f(), g())\n"
+    add("two-lambdas", lam % ("1", "2"), [("first-lambda", "referenced", {"BUILD.dawn": lam % ("3", "2")}),
+                                          ("second-lambda", "referenced", {"BUILD.dawn": lam % ("1", "4")})])
+    sl = "STAGES = (\"a\", \"b\", \"c\", \"d\")\nQUICK = STAGES[%s]\n" + T + "    print(STAGES, QUICK)\n"
+    add("tuple-slices", sl % ":3", [("slice-end", "referenced", {"BUILD.dawn": sl % ":2"}), ("slice-start", "referenced", {"BUILD.dawn": sl % "1:3"})])
+    ss = "S = \"abcdefgh\"\nP = S[%s]\nL = [1, 2, 3, 4]\nM = L[%s]\n" + T + "    print(S, P, L, M)\n"
+    add("string-and-list-slices", ss % (":4", ":3"), [("string-slice", "referenced", {"BUILD.dawn": ss % (":5", ":3")}),
+                                                      ("list-slice", "referenced", {"BUILD.dawn": ss % (":4", ":2")})])
+    add("int-and-float", "K = 1\n" + T + "    print(K)\n", [("int-to-float", "referenced", {"BUILD.dawn": "K = 1.0\n" + T + "    print(K)\n"})])
+    add("bound-method", "FMT = \"hello {}\".format\n" + T + "    print(FMT(\"x\"))\n",
+        [("receiver", "referenced", {"BUILD.dawn": "FMT = \"goodbye {}\".format\n" + T + "    print(FMT(\"x\"))\n"})])
+    add("global-builtin", "F = sorted\n" + T + "    print(F([2, 1]))\n", [("other-builtin", "referenced", {"BUILD.dawn": "F = reversed\n" + T + "    print(F([2, 1]))\n"})])
     add("helper", "def helper():\n    return 3\n" + T + "    print(helper())\n",
         [("helper-body", "referenced", {"BUILD.dawn": "def helper():\n    return 4\n" + T + "    print(helper())\n"})], corrupt=True)
     add("loaded-helper", "load(\"//:lib.dawn\", \"helper\")\n" + T + "    print(helper())\n",
